@@ -48,7 +48,7 @@ def sample : Core2.Mod :=
    [⟨[103], true, .struct true (.cons (.arr 2 (.int 8)) (.cons (.vec false 2 (.int 1)) (.cons (.ptr (.named [78]) 0) .nil))),
       .struct true (.cons (.arr 2 (.int 8)) (.arr (.cons (.int 8) (.int (-1)) (.cons (.int 8) (.int 200) .nil)))
         (.cons (.vec false 2 (.int 1)) (.vec (.cons (.int 1) (.int (-1)) (.cons (.int 1) (.int 0) .nil)))
-        (.cons (.ptr (.named [78]) 0) .null .nil))), []⟩]⟩
+        (.cons (.ptr (.named [78]) 0) .null .nil))), [], {}⟩]⟩
 
 example : Core2.WF sample := by
   refine ⟨?_, ?_, ?_, by decide, by decide, by decide⟩
